@@ -248,6 +248,9 @@ func (c *qCluster) deliver(d *qDelivery) {
 	} else {
 		c.log = append(c.log, d.from+">"+d.to)
 	}
+	if os.Getenv("VERIF_QDEBUG") != "" {
+		fmt.Fprintf(os.Stderr, "  deliver %s>%s err=%q payload=%d\n", d.from, d.to, d.resp.ErrMsg, len(d.resp.Payload))
+	}
 	c.mu.Unlock()
 	if tc != nil {
 		tc.HandleResponse(d.resp, d.from)
@@ -333,6 +336,8 @@ type qLayout struct {
 	// compute node schedule: order of leaf responses at every compute node (indices into leaves)
 	corder []int
 	free   bool // no schedule: responses are delivered as they come, concurrently
+	// the last leaf is another storage node that never saw the metric (recorded as a leaf without shards)
+	ghost bool
 }
 
 func (l *qLayout) event() trace.F {
@@ -364,6 +369,25 @@ type qHist struct {
 	rows   []qRow
 	fams   map[[2]int64]bool // (shard, family start ms) touched
 	hangMs int
+	// a second storage node whose database never saw the metric (its leaf answers "not found")
+	ghost tsdb.Engine
+}
+
+// ghostEngine opens (once) an engine with the same database and one shard in which nothing was ever written
+func (h *qHist) ghostEngine() (tsdb.Engine, error) {
+	if h.ghost != nil {
+		return h.ghost, nil
+	}
+	e, err := openEngineAt(h.dir + "-ghost")
+	if err != nil {
+		return nil, err
+	}
+	if err := e.CreateShards(h.dbName, h.opt, models.ShardID(0)); err != nil {
+		e.Close()
+		return nil, err
+	}
+	h.ghost = e
+	return e, nil
 }
 
 func (h *qHist) open() error {
@@ -685,13 +709,21 @@ func (h *qHist) run(q *qQuery, lay *qLayout) (res trace.F, info string) {
 		for _, cn := range computes {
 			fct.Register(cn.indicator, &qStream{c: c, from: ln.Indicator(), to: cn.indicator})
 		}
-		n := &qNode{indicator: ln.Indicator(), kind: "leaf", proc: query.NewLeafTaskProcessor(ln, h.engine, fct)}
-		c.nodes[n.indicator] = n
-		leaves = append(leaves, n)
+		eng := h.engine
 		ids := []models.ShardID{}
 		for _, s := range sids {
 			ids = append(ids, models.ShardID(s))
 		}
+		if lay.ghost && i == len(lay.leaves)-1 {
+			g, err := h.ghostEngine()
+			if err != nil {
+				return trace.F{"ok": false, "err": "harness", "lost": 0}, "ghost engine: " + err.Error()
+			}
+			eng, ids = g, []models.ShardID{0}
+		}
+		n := &qNode{indicator: ln.Indicator(), kind: "leaf", proc: query.NewLeafTaskProcessor(ln, eng, fct)}
+		c.nodes[n.indicator] = n
+		leaves = append(leaves, n)
 		leafTargets = append(leafTargets, &models.Target{Indicator: ln.Indicator(), ShardIDs: ids})
 	}
 	leafPlan := func() []*models.PhysicalPlan {
@@ -1320,12 +1352,16 @@ func (h *qHist) layouts(nsh int, grouped bool, max int) []*qLayout {
 
 // c12History: the same kind of data spread by the real routing over 1..3 shards; every query is answered under
 // many layouts (leaf partitions, compute nodes, delivery schedules); each answer is judged against the reference
-func c12History(h *qHist, nsh, batches, nq, maxLay int) error {
+func c12History(h *qHist, nsh, batches, nq, maxLay int, sparse bool) error {
 	rng := h.rng
 	if err := h.open(); err != nil {
 		return err
 	}
 	defer func() {
+		if h.ghost != nil {
+			h.ghost.Close()
+			h.ghost = nil
+		}
 		if h.engine != nil {
 			h.engine.Close()
 		}
@@ -1339,6 +1375,10 @@ func c12History(h *qHist, nsh, batches, nq, maxLay int) error {
 		// every series at most once per batch: the routing sorts a batch, arrival order inside one series is kept
 		perm := rng.Perm(len(h.series))
 		n := 1 + rng.Intn(len(h.series))
+		if sparse {
+			// one series only: every row lands in one shard, the other shards hold nothing for the metric
+			perm, n = []int{0}, 1
+		}
 		var batch []qRow
 		used := map[int64]bool{}
 		for _, si := range perm[:n] {
@@ -1384,6 +1424,16 @@ func c12History(h *qHist, nsh, batches, nq, maxLay int) error {
 			ord := qPerms(len(lv))[0]
 			h.query(&eq, &qLayout{leaves: lv, order: ord, before: 0}, nil)
 			h.query(&eq, &qLayout{leaves: lv, order: ord, before: len(lv)}, nil)
+		}
+		if sparse && nsh == 3 {
+			// leaves that hold nothing for the statement answer "not found": tolerated in EVERY position of the
+			// delivery order (also last), before and after the root's own completion
+			lv := [][]int{{0, 1}, {2}, {}}
+			for _, ord := range qPerms(3) {
+				for _, before := range []int{0, 3} {
+					h.query(q, &qLayout{leaves: lv, order: ord, before: before, ghost: true}, nil)
+				}
+			}
 		}
 		// once without a schedule: responses handled concurrently as they come
 		free := oneLeaf(nsh)
@@ -1436,7 +1486,12 @@ func queryMain(args []string) int {
 		case "c11":
 			err = c11History(h, *steps, *nq)
 		case "c12":
-			err = c12History(h, 1+i%3, *steps, *nq, *maxLay)
+			// every fourth history is sparse (one series, three shards)
+			if i%4 == 3 {
+				err = c12History(h, 3, *steps, *nq, *maxLay, true)
+			} else {
+				err = c12History(h, 1+i%3, *steps, *nq, *maxLay, false)
+			}
 		case "probe":
 			err = probeHistory(h)
 		case "probe2":
